@@ -61,13 +61,15 @@ SetValueChangesAllAndOnly(old, new, k, v) ==
             /\ new[i].pairs[j][2] = IF old[i].pairs[j][1] = k THEN v ELSE old[i].pairs[j][2]
 
 \* the domain of the round-trip laws (property's quantifier)
+\* keys are free of TAB as well; names and values may hold it (brackets decide the line kind, the first TAB splits a pair)
 PlainText(s) == \A i \in 1..Len(s) : s[i] \notin {LT, GT, TAB, CR, LF, NUL}
+LineText(s) == \A i \in 1..Len(s) : s[i] \notin {LT, GT, CR, LF, NUL}
 DistinctNames(cfg) == \A i, j \in 1..Len(cfg) : i # j => cfg[i].name # cfg[j].name
 InDomain(cfg) ==
   /\ DistinctNames(cfg)
   /\ \A i \in 1..Len(cfg) :
-       /\ PlainText(cfg[i].name)
-       /\ \A j \in 1..Len(cfg[i].pairs) : PlainText(cfg[i].pairs[j][1]) /\ PlainText(cfg[i].pairs[j][2])
+       /\ LineText(cfg[i].name)
+       /\ \A j \in 1..Len(cfg[i].pairs) : PlainText(cfg[i].pairs[j][1]) /\ LineText(cfg[i].pairs[j][2])
 
 -----------------------------------------------------------------------------
 (* Excel list: "EXLT,<version>" then one "name,id" row per entry, LF between *)
